@@ -28,6 +28,7 @@ struct model_wait
 {
 	int timer; long wstart; long expiry; int arm_seq;
 	bool due_at_start;
+	bool queued;          // already due when started and known (from a cancel's return value) to be queued for invocation
 	bool maybe_aborted;   // destroyed while already due: aborted or completed, the contract allows both
 	int state;            // 0 outstanding, 1 aborted (handler not yet run), 2 completed
 	long abort_time;
@@ -93,6 +94,7 @@ int model_abort(int t, long now, bool& ambiguous)
 	if (!m.waiting) return 0;
 	model_wait& w = g_w[m.wid];
 	if (w.state != 0) return 0;
+	if (w.queued) return 0;
 	if (!w.due_at_start && w.expiry <= now)
 	{
 		// the timer has fired, its handler is queued: no longer pending, completes successfully
@@ -112,7 +114,7 @@ void apply_abort(int t, long now, std::size_t ret, int aid)
 		// already due when started: either still pending (aborted, 1) or already queued (0)
 		vp_assert(ret == 0 || ret == 1, aid);
 		if (ret == 1) { g_w[m.wid].state = 1; g_w[m.wid].abort_time = now; m.waiting = false; }
-		else { g_w[m.wid].due_at_start = false; g_w[m.wid].expiry = now; g_w[m.wid].wstart = now; }
+		else g_w[m.wid].queued = true;   // it was queued already: it completes successfully, at the instant it was started
 		return;
 	}
 	vp_assert(ret == std::size_t(expect), aid);
@@ -144,7 +146,7 @@ void next_op()
 		if (g_nw >= MAXW) return;
 		int const id = g_nw++;
 		model_wait& w = g_w[id];
-		w.timer = t; w.wstart = now; w.expiry = m.expiry; w.arm_seq = m.arm_seq; w.state = 0; w.maybe_aborted = false;
+		w.timer = t; w.wstart = now; w.expiry = m.expiry; w.arm_seq = m.arm_seq; w.state = 0; w.maybe_aborted = false; w.queued = false;
 		w.due_at_start = m.expiry <= now;
 		m.waiting = true; m.wid = id;
 		if (m.armed_cancelled)
@@ -197,7 +199,7 @@ extern "C" int harness_main()
 		g_m[t].expiry = g_unit; g_m[t].arm_seq = g_seq++; g_m[t].armed_cancelled = false;
 		int const id = g_nw++;
 		model_wait& w = g_w[id];
-		w.timer = t; w.wstart = 0; w.expiry = g_unit; w.arm_seq = g_m[t].arm_seq; w.state = 0; w.maybe_aborted = false; w.due_at_start = false;
+		w.timer = t; w.wstart = 0; w.expiry = g_unit; w.arm_seq = g_m[t].arm_seq; w.state = 0; w.maybe_aborted = false; w.queued = false; w.due_at_start = false;
 		g_m[t].waiting = true; g_m[t].wid = id;
 		g_t[t]->async_wait([id](error_code const& ec) { on_wait(id, ec); });
 	}
@@ -211,7 +213,7 @@ extern "C" int harness_main()
 	{
 		int const id = g_nw++;
 		model_wait& w = g_w[id];
-		w.timer = 1; w.wstart = 0; w.expiry = 2 * g_unit; w.arm_seq = g_m[1].arm_seq; w.state = 0; w.maybe_aborted = false; w.due_at_start = false;
+		w.timer = 1; w.wstart = 0; w.expiry = 2 * g_unit; w.arm_seq = g_m[1].arm_seq; w.state = 0; w.maybe_aborted = false; w.queued = false; w.due_at_start = false;
 		g_m[1].waiting = true; g_m[1].wid = id;
 		g_t[1]->async_wait([id](error_code const& ec) { on_wait(id, ec); });
 	}
